@@ -97,4 +97,4 @@ def examples(tier):
 
 
 def wall_budget(tier):
-    return 70.0 if tier == "quick" else 1500.0
+    return 45.0 if tier == "quick" else 1500.0
